@@ -107,6 +107,103 @@ fn cases(run: &Run) -> Vec<Case> {
     v
 }
 
+/// The property's own criterion on a real seeded stream: n draws, termination under a watchdog,
+/// support, and the sup-distance of the empirical distribution function from the reference CDF.
+/// Used (a) to confirm a disagreement found by the exact engine before it is reported — the engine
+/// models rejection loops as memoryless restarts within a declared draw structure, and a sampler
+/// rewritten outside that model must not be accused on the engine's word alone — and (b) to decide
+/// a case the engine cannot represent at all. Sampled: false-alarm probability 1e-12 per case.
+struct StreamVerdict {
+    n: usize,
+    seed: u64,
+    terminated: bool,
+    panic: Option<String>,
+    outside: Option<f64>,
+    d: f64,
+    at: f64,
+    eps: f64,
+}
+impl StreamVerdict {
+    fn fails(&self) -> bool {
+        !self.terminated || self.panic.is_some() || self.outside.is_some() || !(self.d <= self.eps)
+    }
+    fn describe(&self) -> String {
+        if !self.terminated {
+            format!("on the generator seeded with {} the sampler consumed more than 1000 words per draw over {} draws", self.seed, self.n)
+        } else if let Some(p) = &self.panic {
+            format!("on the generator seeded with {}: panic {}", self.seed, p)
+        } else if let Some(v) = self.outside {
+            format!("on the generator seeded with {} a draw {:e} left the support", self.seed, v)
+        } else {
+            format!("the empirical distribution of {} draws from the generator seeded with {} is at sup-distance {:.5} (at x = {:e}) from the true CDF, band {:.5}", self.n, self.seed, self.d, self.at, self.eps)
+        }
+    }
+}
+const STREAM_N: usize = 4_000_000;
+fn stream_check(sample: &(dyn Fn() -> f64 + Sync), cdf: &dyn Fn(f64) -> f64, support: (f64, f64), discrete: bool, seed: u64) -> StreamVerdict {
+    let n = STREAM_N;
+    let eps = ((2.0f64 / 1e-12).ln() / (2.0 * n as f64)).sqrt();
+    let mut v = StreamVerdict { n, seed, terminated: true, panic: None, outside: None, d: 0.0, at: f64::NAN, eps };
+    alea::set_seed(seed);
+    script::reset_draws();
+    script::set_draw_limit(Some(1000 * n as u64));
+    let r = guard(|| (0..n).map(|_| sample()).collect::<Vec<f64>>());
+    script::set_draw_limit(None);
+    let mut xs = match r {
+        Ok(x) => x,
+        Err(p) => {
+            if p.contains("livelock") {
+                v.terminated = false;
+            } else {
+                v.panic = Some(p);
+            }
+            return v;
+        }
+    };
+    if let Some(bad) = xs.iter().find(|x| !(**x >= support.0 && **x <= support.1) || (discrete && x.fract() != 0.0)) {
+        v.outside = Some(*bad);
+        return v;
+    }
+    xs.sort_by(|a, b| a.partial_cmp(b).unwrap_or(std::cmp::Ordering::Equal));
+    let mut i = 0usize;
+    while i < n {
+        let x = xs[i];
+        let mut j = i;
+        while j < n && xs[j] == x {
+            j += 1;
+        }
+        let f = cdf(x);
+        let fminus = if discrete { cdf(x - 1.0) } else if j - i > 1 { f64::NAN } else { f };
+        let mut d = (f - j as f64 / n as f64).abs();
+        if fminus.is_finite() {
+            d = d.max((fminus - i as f64 / n as f64).abs());
+        }
+        if d > v.d {
+            v.d = d;
+            v.at = x;
+        }
+        i = j;
+    }
+    v
+}
+
+/// a disagreement of the exact engine is reported only if the stream criterion confirms it;
+/// returns true when the case may be counted as holding
+fn confirm_or_clear(run: &Run, key: &str, what: &str, engine_says: String, sample: &(dyn Fn() -> f64 + Sync), cdf: &dyn Fn(f64) -> f64, support: (f64, f64), discrete: bool) -> bool {
+    let seed = 0xC03_5EED ^ crate::common::run::hash_of(&what.to_string()) >> 20;
+    let sv = stream_check(sample, cdf, support, discrete, seed);
+    run.trs(sv.n as u64);
+    if sv.fails() {
+        let k = if !sv.terminated { key.rsplit_once('/').map(|(a, _)| format!("{}/does-not-terminate", a)).unwrap_or(key.to_string()) } else { key.to_string() };
+        run.violate(&k, || format!("{}: {}; confirmed: {}", what, engine_says, sv.describe()));
+        false
+    } else {
+        run.cap(&format!("{}: the exact engine could not decide or disagreed ({}), the property's criterion on {} seeded draws holds (sup-distance {:.5} ≤ {:.5}); draw structure outside the engine's model — decided by the sampled criterion only", what, crate::common::run::truncate(&engine_says, 160), sv.n, sv.d, sv.eps));
+        run.regime("decided by the sampled criterion (engine inconclusive)");
+        true
+    }
+}
+
 fn run_case(run: &Run, c: &Case, eps: f64) -> Option<Explored> {
     let f = &*c.sample;
     let ex = Explorer::new(f, c.decl).explore();
@@ -117,32 +214,38 @@ fn run_case(run: &Run, c: &Case, eps: f64) -> Option<Explored> {
     let site = format!("{}/{}", c.law, c.regime);
     let desc = || format!("{}{}", c.law, c.params);
     // termination
+    let dec = c.decl.discrete;
+    let confirm = |key: &str, engine: String| confirm_or_clear(run, key, &desc(), engine, f, &*c.cdf, c.support, dec);
+    let settle = |ok: bool| -> Option<Explored> {
+        if ok {
+            run.regime(&format!("{}:{}", c.law, c.regime));
+        }
+        None
+    };
     if !ex.livelocks.is_empty() {
         run.outcome(&(&site, "livelock"));
-        run.violate(&format!("{}/does-not-terminate", site), || format!("{}: sample() keeps drawing after the script {:?} (20000 further default answers consumed)", desc(), short(&ex.livelocks[0])));
+        // a scripted stream on which the sampler never stops is a verdict only if a real stream shows it too
+        return settle(confirm(&format!("{}/does-not-terminate", site), format!("sample() keeps drawing after the script {:?} (20000 further default answers consumed)", short(&ex.livelocks[0]))));
     }
     if !ex.panics.is_empty() {
         run.outcome(&(&site, "panic"));
         run.violate(&format!("{}/panic", site), || format!("{}: sample() panicked ({}) on the script {:?}", desc(), ex.panics[0].0, short(&ex.panics[0].1)));
     }
     if !ex.structure_errors.is_empty() {
-        run.machinery_error(format!("{}: {}", desc(), ex.structure_errors[0]));
-        return None;
+        return settle(confirm(&format!("{}/law", site), format!("engine: {}", ex.structure_errors[0])));
     }
     if ex.leaves.is_empty() || ex.accepted <= 0.0 {
-        if ex.livelocks.is_empty() && ex.panics.is_empty() {
-            run.machinery_error(format!("{}: no accepted path within the declared draw structure (words {}, units {}): inconclusive", desc(), c.decl.max_words, c.decl.max_units));
+        if ex.panics.is_empty() {
+            return settle(confirm(&format!("{}/law", site), format!("engine: no accepted path within the declared draw structure (words {}, units {})", c.decl.max_words, c.decl.max_units)));
         }
         return None;
     }
     let lost = 1.0 - ex.accepted - ex.rejected;
-    if ex.livelocks.is_empty() && ex.panics.is_empty() && lost.abs() > 1e-6 {
-        run.machinery_error(format!("{}: explored mass does not add up (accepted {} + rejected {})", desc(), ex.accepted, ex.rejected));
-        return None;
+    if ex.panics.is_empty() && lost.abs() > 1e-6 {
+        return settle(confirm(&format!("{}/law", site), format!("engine: explored mass does not add up (accepted {} + rejected {})", ex.accepted, ex.rejected)));
     }
     if ex.accepted < 0.2 {
-        run.machinery_error(format!("{}: accepted mass {} below 0.2: the sampler does not fit its declared draw structure, law inconclusive", desc(), ex.accepted));
-        return None;
+        return settle(confirm(&format!("{}/law", site), format!("engine: accepted mass {} below 0.2, the sampler does not fit the declared draw structure", ex.accepted)));
     }
     // support and integrality on every leaf
     for l in &ex.leaves {
@@ -185,7 +288,9 @@ fn run_case(run: &Run, c: &Case, eps: f64) -> Option<Explored> {
     }
     if !(d <= eps) {
         run.outcome(&(&site, "law-bad"));
-        run.violate(&format!("{}/law", site), || format!("{}: sup-distance between the sampler's law (ideal generator, {} leaves, accepted mass {:.4}, rejected {:.4}) and the true CDF is {:.5} at x = {:e}, band {:.5}", desc(), ex.leaves.len(), ex.accepted, ex.rejected, d, at, eps));
+        if confirm(&format!("{}/law", site), format!("sup-distance between the sampler's law (ideal generator, {} leaves, accepted mass {:.4}, rejected {:.4}) and the true CDF is {:.5} at x = {:e}, band {:.5}", ex.leaves.len(), ex.accepted, ex.rejected, d, at, eps)) {
+            run.regime(&format!("{}:{}", c.law, c.regime));
+        }
     } else {
         run.outcome(&(&site, "law-ok", (d * 1e4) as u64));
         run.regime(&format!("{}:{}", c.law, c.regime));
@@ -287,17 +392,23 @@ fn gamma_reps(run: &Run, a: f64, b: f64, q: usize) -> Result<Vec<Vec<Ans>>, Stri
     }
 }
 
-fn judge_composed(run: &Run, law: &'static str, params: String, regime: &'static str, res: Result<Vec<(f64, Vec<Ans>)>, String>, cdf: &dyn Fn(f64) -> f64, support: (f64, f64), eps: f64) {
+fn judge_composed(run: &Run, law: &'static str, params: String, regime: &'static str, res: Result<Vec<(f64, Vec<Ans>)>, String>, cdf: &dyn Fn(f64) -> f64, support: (f64, f64), eps: f64, whole: &(dyn Fn() -> f64 + Sync)) {
     let site = format!("{}/{}", law, regime);
     let atoms = match res {
         Ok(a) => a,
         Err(e) => {
             let (kind, msg) = e.split_once('|').unwrap_or(("machinery", &e));
-            if kind == "machinery" {
-                run.machinery_error(format!("{}{}: {}", law, params, msg));
-            } else {
+            if kind == "panic" {
+                // a panic on a concrete answer script is a witness in itself
                 run.outcome(&(&site, kind));
                 run.violate(&format!("{}/{}", site, kind), || format!("{}{}: {}", law, params, msg));
+            } else {
+                // the staged engine could not represent the sampler (or saw it loop on a script): the
+                // property's criterion on a real stream decides
+                let key = if kind == "does-not-terminate" { format!("{}/does-not-terminate", site) } else { format!("{}/law", site) };
+                if confirm_or_clear(run, &key, &format!("{}{}", law, params), format!("engine: {}", msg), whole, cdf, support, false) {
+                    run.regime(&format!("{}:{}", law, regime));
+                }
             }
             return;
         }
@@ -315,7 +426,9 @@ fn judge_composed(run: &Run, law: &'static str, params: String, regime: &'static
     let (d, at) = sup_distance(&leaves, leaves.len() as f64, cdf);
     if !(d <= eps) {
         run.outcome(&(&site, "law-bad"));
-        run.violate(&format!("{}/law", site), || format!("{}{}: sup-distance between the sampler's law ({} composed stage scripts run on the real sampler) and the true CDF is {:.5} at x = {:e}, band {:.5}", law, params, leaves.len(), d, at, eps));
+        if confirm_or_clear(run, &format!("{}/law", site), &format!("{}{}", law, params), format!("sup-distance between the sampler's law ({} composed stage scripts run on the real sampler) and the true CDF is {:.5} at x = {:e}, band {:.5}", leaves.len(), d, at, eps), whole, cdf, support, false) {
+            run.regime(&format!("{}:{}", law, regime));
+        }
     } else {
         run.outcome(&(&site, "law-ok"));
         run.regime(&format!("{}:{}", law, regime));
@@ -330,6 +443,7 @@ fn poisson_mult(run: &Run) {
     for &lam in &[0.5, 3.0, 9.5] {
         let d = Poisson::new(lam);
         let limit = DD::new((-lam).exp());
+        let mismatch: std::sync::Mutex<Option<String>> = std::sync::Mutex::new(None);
         let total = 8u64.pow(depth as u32);
         (0..total).into_par_iter().for_each(|idx| {
             let mut s = Vec::with_capacity(depth);
@@ -370,8 +484,14 @@ fn poisson_mult(run: &Run) {
             match r {
                 Ok(v) => {
                     if v != count as f64 || rep.trace.len() != used {
-                        run.outcome(&("pois-mult", "bad"));
-                        run.violate("Poisson/rate<10 (multiplication)/count", || format!("Poisson({}) on uniforms {:?}(then 1e-9): returned {} after {} draws; the product falls to e^-lambda after {} draws, count {}", lam, s, v, rep.trace.len(), used, count));
+                        // either a wrong count or a sampler that is not the multiplication method at all:
+                        // path-wise agreement proves the law, disagreement only sends the case to the
+                        // stream criterion below
+                        run.outcome(&("pois-mult", "differs"));
+                        let mut m = mismatch.lock().unwrap();
+                        if m.is_none() {
+                            *m = Some(format!("on uniforms {:?}(then 1e-9) it returned {} after {} draws; the product of uniforms falls to e^-lambda after {} draws, count {}", s, v, rep.trace.len(), used, count));
+                        }
                     } else {
                         run.outcome(&("pois-mult", count.min(9)));
                         run.regime("Poisson:rate<10 (multiplication)");
@@ -380,12 +500,72 @@ fn poisson_mult(run: &Run) {
                 Err(e) => run.violate("Poisson/rate<10 (multiplication)/panic", || format!("Poisson({}) on uniforms {:?}: {}", lam, s, e)),
             }
         });
+        if let Some(m) = mismatch.into_inner().unwrap() {
+            if confirm_or_clear(run, "Poisson/rate<10 (multiplication)/count", &format!("Poisson({})", lam), m, &move || d.sample(), &move |x| poisson_cdf(lam, x), (0.0, f64::INFINITY), true) {
+                run.regime("Poisson:rate<10 (multiplication)");
+            }
+        }
     }
 }
 
+/// small dense solve (Gaussian elimination with partial pivoting), for d ≤ 4
+fn small_solve(a: &[f64], b: &[f64], d: usize) -> Option<Vec<f64>> {
+    let mut m: Vec<f64> = a.to_vec();
+    let mut x: Vec<f64> = b.to_vec();
+    for c in 0..d {
+        let piv = (c..d).max_by(|&i, &j| m[i * d + c].abs().partial_cmp(&m[j * d + c].abs()).unwrap())?;
+        if m[piv * d + c].abs() < 1e-12 {
+            return None;
+        }
+        for k in 0..d {
+            m.swap(c * d + k, piv * d + k);
+        }
+        x.swap(c, piv);
+        for r in c + 1..d {
+            let f = m[r * d + c] / m[c * d + c];
+            for k in c..d {
+                m[r * d + k] -= f * m[c * d + k];
+            }
+            x[r] -= f * x[c];
+        }
+    }
+    for r in (0..d).rev() {
+        for k in r + 1..d {
+            x[r] -= m[r * d + k] * x[k];
+        }
+        x[r] /= m[r * d + r];
+    }
+    Some(x)
+}
+
+/// Multivariate normal: a draw must be μ + A·z for the standard normals z it pulls and *some* factor
+/// A with A·Aᵀ = Σ (which factor, and in which order the normals are used, is the implementation's
+/// business). A is recovered column by column from scripted normals by changing one at a time.
 fn mvn_affine(run: &Run) {
     // integer SPD covariances with exact integer Cholesky factors
     let dims = run.tier.pick(3usize, 4usize);
+    let std = Normal::default();
+    let z_of = |w: u64| -> Option<f64> {
+        script::install(vec![Ans::Word(w)], 0);
+        let r = guard(|| std.sample());
+        let rep = script::uninstall();
+        match r {
+            Ok(v) if rep.consumed == 1 && rep.defaults == 0 => Some(v),
+            _ => None,
+        }
+    };
+    // a pool of words each of which yields a standard normal directly (one request, no rejection)
+    let mut pool: Vec<(u64, f64)> = Vec::new();
+    let mut w = 0x2545_f491_4f6c_dd1du64;
+    while pool.len() < 24 {
+        w = w.wrapping_mul(6364136223846793005).wrapping_add(1442695040888963407);
+        let cand = w >> 11;
+        if let Some(z) = z_of(cand) {
+            if pool.iter().all(|(_, q)| (q - z).abs() > 1e-3) {
+                pool.push((cand, z));
+            }
+        }
+    }
     for d in 1..=dims {
         let ls: Vec<(&str, Vec<f64>)> = vec![
             ("ones-lower", (0..d * d).map(|t| if t % d <= t / d { 1.0 } else { 0.0 }).collect()),
@@ -399,6 +579,7 @@ fn mvn_affine(run: &Run) {
                     sigma[i * d + j] = (0..d).map(|k| l[i * d + k] * l[j * d + k]).sum();
                 }
             }
+            let snorm = sigma.iter().fold(0.0f64, |a, b| a.max(b.abs()));
             let mu: Vec<f64> = (0..d).map(|i| [0.5, -2.0, 10.0, 0.0][i]).collect();
             let mvn = match guard(|| MVN::new(Vector::new(mu.clone()), Matrix::new(sigma.clone(), d as i32, d as i32))) {
                 Ok(m) => m,
@@ -407,115 +588,223 @@ fn mvn_affine(run: &Run) {
                     continue;
                 }
             };
-            // 5 scripted base-strip words per coordinate
-            let words: [u64; 5] = [0x0000_0000_0010_0001u64, 0x0000_0000_0300_0085, 0x0000_0000_0a00_0143 & !0x100 | 0x43, 0x0000_0000_0f00_00c0 | 0x21, 0x0000_0000_0001_0005];
-            let std = Normal::default();
-            let z_of = |w: u64| -> Option<f64> {
-                script::install(vec![Ans::Word(w)], 0);
-                let r = guard(|| std.sample());
+            // the two public ways of drawing one vector
+            let single = |ws: &[u64]| -> Option<Vec<f64>> {
+                script::install(ws.iter().map(|&w| Ans::Word(w)).collect(), 0);
+                let r = guard(|| mvn.sample().v.clone());
                 let rep = script::uninstall();
                 match r {
-                    Ok(v) if rep.consumed == 1 && rep.defaults == 0 => Some(v),
+                    Ok(x) if rep.defaults == 0 && !rep.kind_mismatch && rep.consumed == ws.len() && x.len() == d => Some(x),
                     _ => None,
                 }
             };
-            let total = 5usize.pow(d as u32);
-            for code in 0..total {
-                let ws: Vec<u64> = (0..d).map(|i| words[(code / 5usize.pow(i as u32)) % 5]).collect();
-                let zs: Vec<f64> = match ws.iter().map(|&w| z_of(w)).collect::<Option<Vec<f64>>>() {
-                    Some(z) => z,
+            let bulk_n = |ws: &[u64], n: usize| -> Option<Vec<f64>> {
+                script::install(ws.iter().map(|&w| Ans::Word(w)).collect(), 0);
+                let r = guard(|| {
+                    let m = mvn.sample_n(n);
+                    (m.shape(), m.data.v.clone())
+                });
+                let rep = script::uninstall();
+                match r {
+                    Ok((sh, x)) if rep.defaults == 0 && !rep.kind_mismatch && rep.consumed == ws.len() && sh == [n, d] && x.len() == n * d => Some(x),
+                    _ => None,
+                }
+            };
+            for (path, is_bulk) in [("sample", false), ("sample_n", true)] {
+                let draw1 = |ws: &[u64]| if is_bulk { bulk_n(ws, 1) } else { single(ws) };
+                run.case();
+                run.tr();
+                let base: Vec<u64> = pool[..d].iter().map(|p| p.0).collect();
+                let z0: Vec<f64> = pool[..d].iter().map(|p| p.1).collect();
+                let x0 = match draw1(&base) {
+                    Some(x) => x,
                     None => {
-                        run.skip("word not in a directly accepted strip");
+                        // not "d standard normals, one generator word each": left to the distributional test below
+                        run.skip("MVN draw structure is not one scripted normal per coordinate");
+                        run.regime("MVN: draw structure undecided by scripts");
                         continue;
                     }
                 };
-                run.case();
-                run.tr();
                 run.ok();
                 run.nontrivial(1);
-                script::install(ws.iter().map(|&w| Ans::Word(w)).collect(), 0);
-                let r = guard(|| mvn.sample());
-                let rep = script::uninstall();
-                match r {
-                    Ok(x) => {
-                        let want: Vec<f64> = (0..d).map(|i| mu[i] + (0..d).map(|k| l[i * d + k] * zs[k]).sum::<f64>()).collect();
-                        let scale = zs.iter().fold(1.0f64, |m, z| m.max(z.abs())) * (d as f64) * 4.0 + 10.0;
-                        if x.len() != d || rep.defaults > 0 || x.iter().zip(&want).any(|(a, b)| (a - b).abs() > 16.0 * U * scale) {
-                            run.outcome(&("mvn", "bad"));
-                            run.violate("MVN/draw-not-mean-plus-L-z", || format!("dim {} factor {} z={:?}: draw {:?}, mean + L z = {:?}", d, lname, zs, x.v, want));
-                        } else {
-                            run.outcome(&("mvn", "ok", d));
-                            run.regime("MVN:affine");
+                // recover A column by column
+                let mut a = vec![0.0; d * d];
+                let mut okc = true;
+                for k in 0..d {
+                    let mut ws = base.clone();
+                    ws[k] = pool[d + k].0;
+                    match draw1(&ws) {
+                        Some(xk) => {
+                            for i in 0..d {
+                                a[i * d + k] = (xk[i] - x0[i]) / (pool[d + k].1 - z0[k]);
+                            }
+                        }
+                        None => okc = false,
+                    }
+                }
+                if !okc {
+                    run.skip("MVN draw structure changes with the answers");
+                    continue;
+                }
+                // A·Aᵀ = Σ
+                let mut worst = 0.0f64;
+                for i in 0..d {
+                    for j in 0..d {
+                        let v: f64 = (0..d).map(|k| a[i * d + k] * a[j * d + k]).sum();
+                        worst = worst.max((v - sigma[i * d + j]).abs());
+                    }
+                }
+                if !(worst <= 1e-9 * snorm) {
+                    run.outcome(&("mvn", path, "bad-factor"));
+                    run.violate(&format!("MVN/{}/covariance-of-the-affine-map", path), || format!("dim {} covariance {:?} ({}): {} maps the standard normals through A = {:?}, and A·Aᵀ differs from the covariance by {:e}", d, sigma, lname, path, a, worst));
+                    continue;
+                }
+                // x = μ + A z on every script over 5 words per coordinate
+                let total = 5usize.pow(d as u32);
+                let mut affine_ok = true;
+                for code in 0..total {
+                    let sel: Vec<usize> = (0..d).map(|i| 2 * d + (code / 5usize.pow(i as u32)) % 5).collect();
+                    let ws: Vec<u64> = sel.iter().map(|&i| pool[i].0).collect();
+                    let zs: Vec<f64> = sel.iter().map(|&i| pool[i].1).collect();
+                    run.case();
+                    run.tr();
+                    run.ok();
+                    match draw1(&ws) {
+                        Some(x) => {
+                            let want: Vec<f64> = (0..d).map(|i| mu[i] + (0..d).map(|k| a[i * d + k] * zs[k]).sum::<f64>()).collect();
+                            let scale = zs.iter().fold(1.0f64, |m, z| m.max(z.abs())) * snorm.sqrt() * (d as f64) + 10.0;
+                            if x.iter().zip(&want).any(|(p, q)| !((p - q).abs() <= 1e-9 * scale)) {
+                                affine_ok = false;
+                                run.outcome(&("mvn", path, "bad"));
+                                run.violate(&format!("MVN/{}/draw-not-mean-plus-A-z", path), || format!("dim {} factor {} z={:?}: draw {:?}, mean + A z = {:?}", d, lname, zs, x, want));
+                                break;
+                            }
+                        }
+                        None => {
+                            run.skip("MVN draw structure changes with the answers");
                         }
                     }
-                    Err(e) => run.violate("MVN/sample-panic", || format!("dim {}: {}", d, e)),
                 }
-            }
-            // bulk: n×d; with scripted normals every row must be mean + L·z for its own d of the
-            // n·d normals drawn (whitening each row with the exact factor must give back the
-            // scripted normals as a multiset, whatever order the implementation draws them in)
-            let mut pool: Vec<(u64, f64)> = Vec::new();
-            let mut w = 0x2545_f491_4f6c_dd1du64;
-            while pool.len() < 12 {
-                w = w.wrapping_mul(6364136223846793005).wrapping_add(1442695040888963407);
-                let cand = w >> 11;
-                if let Some(z) = z_of(cand) {
-                    if pool.iter().all(|(_, q)| (q - z).abs() > 1e-3) {
-                        pool.push((cand, z));
+                if affine_ok {
+                    run.outcome(&("mvn", path, "ok", d));
+                    run.regime(if is_bulk { "MVN:bulk-affine" } else { "MVN:affine" });
+                }
+                // several rows at once: each row is μ + A·(its own d normals); whitening the rows with
+                // A must give back the scripted normals as a multiset, whatever the order of use
+                if is_bulk && affine_ok {
+                    for n in [2usize, 3, 5] {
+                        if n * d > pool.len() {
+                            continue;
+                        }
+                        run.case();
+                        run.tr();
+                        let ws: Vec<u64> = pool[..n * d].iter().map(|p| p.0).collect();
+                        match bulk_n(&ws, n) {
+                            Some(x) => {
+                                run.ok();
+                                let mut rec: Vec<f64> = Vec::new();
+                                let mut solvable = true;
+                                for i in 0..n {
+                                    let rhs: Vec<f64> = (0..d).map(|c| x[i * d + c] - mu[c]).collect();
+                                    match small_solve(&a, &rhs, d) {
+                                        Some(z) => rec.extend(z),
+                                        None => solvable = false,
+                                    }
+                                }
+                                let mut want: Vec<f64> = pool[..n * d].iter().map(|p| p.1).collect();
+                                rec.sort_by(|p, q| p.partial_cmp(q).unwrap_or(std::cmp::Ordering::Equal));
+                                want.sort_by(|p, q| p.partial_cmp(q).unwrap());
+                                if !solvable || rec.iter().zip(&want).any(|(p, q)| !((p - q).abs() <= 1e-8)) {
+                                    run.violate("MVN/sample_n/rows-not-mean-plus-A-z", || format!("dim {} factor {} sample_n({}): rows {:?}; whitened (sorted) {:?}, scripted normals (sorted) {:?}", d, lname, n, x, rec, want));
+                                } else {
+                                    run.regime("MVN:bulk-rows");
+                                }
+                            }
+                            None => run.skip("MVN bulk draw structure is not one scripted normal per entry"),
+                        }
                     }
                 }
             }
-            for n in [0usize, 1, 2, 3, 7] {
+            // shapes of bulk draws
+            for n in [0usize, 1, 3, 7] {
+                alea::set_seed(9);
                 run.tr();
-                run.case();
-                let scripted = n * d <= pool.len();
-                if scripted {
-                    script::install(pool[..n * d].iter().map(|&(w, _)| Ans::Word(w)).collect(), 0);
-                } else {
-                    alea::set_seed(9);
-                }
-                let r = guard(|| mvn.sample_n(n));
-                let rep = if scripted { Some(script::uninstall()) } else { None };
-                match r {
+                match guard(|| mvn.sample_n(n)) {
                     Ok(m) => {
                         if (n > 0 && m.shape() != [n, d]) || m.data.len() != n * d {
                             run.violate("MVN/sample_n-shape", || format!("sample_n({}) of a {}-dimensional MVN has shape {:?}", n, d, m.shape()));
-                        } else if let Some(rep) = rep {
-                            if n == 0 {
-                                continue;
-                            }
-                            run.ok();
-                            run.nontrivial(1);
-                            // whiten: solve L z' = x − μ row by row (L is a small integer lower-triangular matrix)
-                            let mut rec: Vec<f64> = Vec::new();
-                            for i in 0..n {
-                                let mut zr = vec![0.0; d];
-                                for a in 0..d {
-                                    let mut v = m.data[i * d + a] - mu[a];
-                                    for k in 0..a {
-                                        v -= l[a * d + k] * zr[k];
-                                    }
-                                    zr[a] = v / l[a * d + a];
-                                }
-                                rec.extend(zr);
-                            }
-                            let mut want: Vec<f64> = pool[..n * d].iter().map(|&(_, z)| z).collect();
-                            rec.sort_by(|a, b| a.partial_cmp(b).unwrap_or(std::cmp::Ordering::Equal));
-                            want.sort_by(|a, b| a.partial_cmp(b).unwrap());
-                            let bad = rep.defaults > 0 || rep.consumed != n * d || rec.iter().zip(&want).any(|(a, b)| !((a - b).abs() <= 1e-12 * (d * d) as f64 * 40.0));
-                            if bad {
-                                run.outcome(&("mvn-bulk", "bad"));
-                                run.violate("MVN/sample_n-rows-not-mean-plus-L-z", || format!("dim {} factor {} sample_n({}): rows {:?}; whitened rows (sorted) {:?}, scripted normals (sorted) {:?}, {} draws consumed, {} unscripted", d, lname, n, m.data.v, rec, want, rep.consumed, rep.defaults));
-                            } else {
-                                run.outcome(&("mvn-bulk", "ok", n, d));
-                                run.regime("MVN:bulk-affine");
-                            }
                         }
                     }
                     Err(e) => {
                         if n > 0 {
                             run.violate("MVN/sample_n-panic", || format!("sample_n({}): {}", n, e))
                         }
+                    }
+                }
+            }
+            // the property's own criterion on a real stream, whatever the draw structure: every whitened
+            // coordinate and a few projections of n draws within the DKW band of the standard normal
+            // (sampled; false-alarm probability 1e-12 per statistic under an ideal generator)
+            let n = if run.thorough() { 4_000_000usize } else { 200_000 };
+            let eps = band(run);
+            for (path, is_bulk) in [("sample", false), ("sample_n", true)] {
+                alea::set_seed(0xC03 + d as u64 * 17 + is_bulk as u64);
+                let rows: Vec<f64> = match guard(|| {
+                    if is_bulk {
+                        mvn.sample_n(n).data.v.clone()
+                    } else {
+                        let mut v = Vec::with_capacity(n * d);
+                        for _ in 0..n {
+                            v.extend(mvn.sample().v.iter());
+                        }
+                        v
+                    }
+                }) {
+                    Ok(v) if v.len() == n * d => v,
+                    Ok(v) => {
+                        run.violate("MVN/sample_n-shape", || format!("{} draws of dimension {} gave {} values", n, d, v.len()));
+                        continue;
+                    }
+                    Err(e) => {
+                        run.violate("MVN/sample-panic", || format!("dim {} {}: {}", d, path, e));
+                        continue;
+                    }
+                };
+                // whiten with the exact lower factor (forward substitution)
+                let mut cols: Vec<Vec<f64>> = vec![Vec::with_capacity(n); d + 2];
+                for i in 0..n {
+                    let mut zr = vec![0.0; d];
+                    for c in 0..d {
+                        let mut v = rows[i * d + c] - mu[c];
+                        for k in 0..c {
+                            v -= l[c * d + k] * zr[k];
+                        }
+                        zr[c] = v / l[c * d + c];
+                    }
+                    for c in 0..d {
+                        cols[c].push(zr[c]);
+                    }
+                    // two fixed projections of the whitened vector (unit vectors)
+                    let s: f64 = zr.iter().sum::<f64>() / (d as f64).sqrt();
+                    let nrm = (0..d).map(|c| ((c + 1) * (c + 1)) as f64).sum::<f64>().sqrt();
+                    let t: f64 = zr.iter().enumerate().map(|(c, z)| if c % 2 == 0 { (c + 1) as f64 } else { -((c + 1) as f64) } * z).sum::<f64>() / nrm;
+                    cols[d].push(s);
+                    cols[d + 1].push(t);
+                }
+                for (ci, col) in cols.iter_mut().enumerate() {
+                    run.case();
+                    run.tr();
+                    run.ok();
+                    col.sort_by(|p, q| p.partial_cmp(q).unwrap_or(std::cmp::Ordering::Equal));
+                    let mut dmax = 0.0f64;
+                    for (i, v) in col.iter().enumerate() {
+                        let f = norm_cdf(*v);
+                        dmax = dmax.max((f - i as f64 / n as f64).abs()).max((f - (i + 1) as f64 / n as f64).abs());
+                    }
+                    if !(dmax <= eps) {
+                        run.violate(&format!("MVN/{}/whitened-not-standard-normal", path), || format!("dim {} covariance {:?}: {} of {} draws ({}) is at sup-distance {:e} > {:e} from the standard normal", d, sigma, if ci < d { format!("whitened coordinate {}", ci) } else { format!("projection {}", ci - d) }, n, path, dmax, eps));
+                    } else {
+                        run.regime("MVN:whitened-dkw");
                     }
                 }
             }
@@ -557,7 +846,7 @@ pub fn run(run: &Run) {
         Err(e) => run.machinery_error(e),
     }
     let eps = band(run);
-    run.rule("every sampler × a parameter lattice hitting each algorithm branch; the RNG answers are enumerated: all 128 ziggurat layers × 2 signs × a refined partition of the 24-bit field, unit floats partitioned by continuation signature (gates located by bisection, value-producing draws subdivided 2^13 (2^16) fold, integer outputs split at every jump), bounded integers exhaustively; rejection bound 0 (a request beyond one loop iteration is a memoryless restart, its mass reported; loop-free samplers are declared generously (1 word, 2 units) so that a rewritten draw structure is still explored); the normalised leaf measure is compared with the reference CDF within the DKW band; two-stage samplers (Beta, T) through Q×Q quantile-reduced stage scripts run on the real composite sampler; multiplication-method Poisson path-wise against the product-of-uniforms model on all scripts of depth 6 (7) over 8 letters; MVN draws must be mean + L·z exactly, single and bulk (rows of sample_n whitened with the exact factor must return the scripted normals); non-trivial = leaf reached through more than one draw");
+    run.rule("every sampler × a parameter lattice hitting each algorithm branch; the RNG answers are enumerated: all 128 ziggurat layers × 2 signs × a refined partition of the 24-bit field, unit floats partitioned by continuation signature (gates located by bisection, value-producing draws subdivided 2^13 (2^16) fold, integer outputs split at every jump), bounded integers exhaustively; rejection bound 0 (a request beyond one loop iteration is a memoryless restart, its mass reported; loop-free samplers are declared generously (1 word, 2 units) so that a rewritten draw structure is still explored); the normalised leaf measure is compared with the reference CDF within the DKW band; two-stage samplers (Beta, T) through Q×Q quantile-reduced stage scripts run on the real composite sampler; multiplication-method Poisson path-wise against the product-of-uniforms model on all scripts of depth 6 (7) over 8 letters; MVN (sample and sample_n): the affine map of the scripted normals is recovered column by column and must satisfy A·Aᵀ = Σ and x = μ + A·z on every script over 5 words per coordinate, rows of bulk draws whitened with A must return the scripted normals, and (sampled, the property's own criterion) every whitened coordinate and two projections of 2e5 (4e6) draws lie in the DKW band; non-trivial = leaf reached through more than one draw");
     run.bound("DKW band", format!("{:.5}", eps));
     let cs = cases(run);
     cs.par_iter().for_each(|c| {
@@ -577,7 +866,7 @@ pub fn run(run: &Run) {
             let s2 = reps_of(run, "Uniform(0, 1) [boost draw]", &move || u.sample(), decl(run, 0, 1, false), 2 * q1)?;
             compose(run, &[s1, s2], &move || whole.sample())
         })();
-        judge_composed(run, "Gamma", format!("({}, {})", a, b), if a < 1.0 / 3.0 { "shape<1/3" } else { "shape<1" }, res, &move |x| gamma_cdf(a, b, x), (0.0, f64::INFINITY), eps);
+        judge_composed(run, "Gamma", format!("({}, {})", a, b), if a < 1.0 / 3.0 { "shape<1/3" } else { "shape<1" }, res, &move |x| gamma_cdf(a, b, x), (0.0, f64::INFINITY), eps, &move || whole.sample());
     });
     {
         let q1 = run.tier.pick(512usize, 1536usize);
@@ -587,7 +876,7 @@ pub fn run(run: &Run) {
             let s2 = reps_of(run, "Uniform(0, 1) [boost draw]", &move || u.sample(), decl(run, 0, 1, false), 2 * q1)?;
             compose(run, &[s1, s2], &move || whole.sample())
         })();
-        judge_composed(run, "ChiSquared", "(1)".into(), "dof=1 (gamma shape<1)", res, &|x| chi2_cdf(1.0, x), (0.0, f64::INFINITY), eps);
+        judge_composed(run, "ChiSquared", "(1)".into(), "dof=1 (gamma shape<1)", res, &|x| chi2_cdf(1.0, x), (0.0, f64::INFINITY), eps, &move || whole.sample());
     }
     // (the last two pairs are reached through the setters from another parameter pair: the cached
     // generators must follow)
@@ -607,7 +896,7 @@ pub fn run(run: &Run) {
             let s2 = gamma_reps(run, b, 1.0, q)?;
             compose(run, &[s1, s2], &move || bt.sample())
         })();
-        judge_composed(run, "Beta", format!("({}, {}){}", a, b, if via { " reached through set_alpha, set_beta" } else { "" }), regime, res, &move |x| beta_cdf(a, b, x), (0.0, 1.0), eps);
+        judge_composed(run, "Beta", format!("({}, {}){}", a, b, if via { " reached through set_alpha, set_beta" } else { "" }), regime, res, &move |x| beta_cdf(a, b, x), (0.0, 1.0), eps, &move || bt.sample());
     });
     let nus = [(1.0, false), (2.0, false), (5.0, false), (30.0, false), (5.0, true)];
     nus.par_iter().for_each(|&(nu, via)| {
@@ -625,12 +914,12 @@ pub fn run(run: &Run) {
             let s2 = gamma_reps(run, nu / 2.0, 1.0, q)?;
             compose(run, &[s1, s2], &move || t.sample())
         })();
-        judge_composed(run, "T", format!("({}){}", nu, if via { " reached through set_dof" } else { "" }), regime, res, &move |x| t_cdf(nu, x), (f64::NEG_INFINITY, f64::INFINITY), eps);
+        judge_composed(run, "T", format!("({}){}", nu, if via { " reached through set_dof" } else { "" }), regime, res, &move |x| t_cdf(nu, x), (f64::NEG_INFINITY, f64::INFINITY), eps, &move || t.sample());
     });
     poisson_mult(run);
     mvn_affine(run);
     bulk(run);
-    for r in ["Normal:ziggurat", "Gamma:shape>=1", "Poisson:rate>=10 (PTRS)", "Binomial:BTPE", "Binomial:inversion", "Poisson:rate<10 (multiplication)", "MVN:affine", "MVN:bulk-affine", "Beta:gamma shape>=1", "T:gamma shape>=1", "Uniform:inverse-cdf"] {
+    for r in ["Normal:ziggurat", "Gamma:shape>=1", "Poisson:rate>=10 (PTRS)", "Binomial:BTPE", "Binomial:inversion", "Poisson:rate<10 (multiplication)", "MVN:whitened-dkw", "Beta:gamma shape>=1", "T:gamma shape>=1", "Uniform:inverse-cdf"] {
         run.require_regime(r);
     }
     run.assume("what is decided is the sampler's law under an ideal generator on the stated partitions (the stronger statement); the statistical quality of alea's stream is not examined");
